@@ -170,6 +170,9 @@ def add_corpora(cases, rng):
                     for _ in range(rng.randint(0, 5))]
             g['corpora'].append({'tokens': toks, 'distribute': rng.random() < 0.5,
                                  'smoothing': rng.choice([[0, 1], [1, 2], [1, 1], [1, 1]])})
+        # one corpus counted with the documented default arguments
+        g['corpora'].append({'tokens': [rng.choice([w[0] for w in words]) for _ in range(rng.randint(1, 4))],
+                             'distribute': True, 'smoothing': [1, 1], 'defaults': True})
         # a WordNet::Similarity weights file: some synsets listed (some twice, the last
         # wins), some marked ROOT
         rows = []
